@@ -272,6 +272,15 @@ def seed_guard(ctx, seeded=None):
         lits = [(t, pol) for _e, t, pol in literals(guards(node))]
         state = [(t, pol) for t, pol in lits if 'parent.' in t]
         exists = ('parent', True) in lits or ('parent is None', False) in lits or ('self.parent', True) in lits
+        by_truth = (('parent', True) in lits or ('self.parent', True) in lits) and ('parent is None', False) not in lits
+        sized = [nm for nm in ('__len__', '__bool__') if nm in ctx.repo.cls('tract.tract:Tract').methods]
+        if by_truth and sized:
+            ctx.violation('COMMIT', f"TractParser.{a}: the tract's existing {a} are taken over whenever there is a parent",
+                          f"`if parent:` asks for the TRUTH VALUE of the Tract, and Tract now defines {sized[0]}: a tract with no lots / "
+                          f"QQs (not parsed yet, or nothing to find) is falsy, so its flags - those handed down by the description - "
+                          f"are not taken over and a committed (re-)parse wipes them",
+                          key=f"COMMIT|TractParser|seed-guard|{a}", where=common.loc(m, node))
+            continue
         ctx.tri(exists and not state, bool(state), 'COMMIT',
                 f"TractParser.{a}: the tract's existing {a} are taken over whenever there is a parent",
                 detail_bad=f"`{txt}` runs only under {state}: in the other state the flags the tract already carries "
